@@ -5,7 +5,7 @@ import subprocess
 
 import callgraph
 import mirutil
-from facts import find_hir
+from facts import find_hir, strip
 
 LEVEL = "proof"
 CRATES_QUICK = None   # whole workspace: the call graph is cross-crate
@@ -102,11 +102,17 @@ def run(F, rep, tier):
             calls = [c for c, _ in find_hir(blk, lambda x: x.get("k") in ("Call", "MethodCall") and x.get("callee"))]
             bad = [c["callee"] for c in calls if not (c["callee"] in F.foreign or c["callee"].startswith("core::ffi::c_str::CStr::from_ptr")
                                                       or not is_unsafe_callee(F, c["callee"]))]
+            # calls through a function value inside the block: only typed `extern "C" fn` pointers (a library function handed to a generic helper)
+            for c, _ in find_hir(blk, lambda x: x.get("k") == "Call" and not x.get("callee") and "f" in x):
+                fty = F.ty(h, strip(c["f"]).get("t")) or ""
+                if 'extern "C" fn' not in fty:
+                    bad.append("call through a value of type %s" % fty)
             if bad:
                 rep.violation(r2, key, "unsafe block calls unsafe non-FFI functions %s" % bad, "%s:%s" % (h["file"], blk.get("l")))
             else:
                 rep.ok(r2, key, "only extern \"C\" calls%s" % (" and CStr::from_ptr" if any("from_ptr" in c["callee"] for c in calls) else ""))
-    rep.floor(r2, "unsafe blocks", nunsafe, 30)
+    # 30 on the pinned tree; the floor leaves room for FFI wrappers being folded into generic helpers
+    rep.floor(r2, "unsafe blocks", nunsafe, 18)
     for im in F.impls:
         if im.get("unsafe") and im["_crate"].startswith("dmntk"):
             if im.get("m") and "derive" in im.get("m", ""):
@@ -128,6 +134,11 @@ def run(F, rep, tier):
         for bi, c in F.body_calls(b):
             p = c["f"].get("p")
             ff = F.foreign.get(p)
+            if ff is None and c["f"].get("k") == "fnptr" and c["f"].get("ty") is not None:
+                # a library function applied through a typed `extern "C" fn` pointer
+                m = re.match(r'^(?:for<[^>]*>\s*)?(?:unsafe\s+)?extern "C" fn\((.*)\)(?:\s*->.*)?$', F.ty(b, c["f"]["ty"]))
+                if m:
+                    ff = {"sym": "(library function passed as a parameter)", "inputs": [x.strip() for x in m.group(1).split(",")]}
             if ff is None or "inputs" not in ff:
                 continue
             ncalls += 1
@@ -150,7 +161,7 @@ def run(F, rep, tier):
                 else:
                     rep.violation(r3, key, "%s passes memory it does not own (%s) as *mut argument %d of %s: concurrent calls would write the same object"
                                   % (n, sorted(map(str, bad)), i, ff["sym"]), "%s:%s" % (b["file"], c.get("line")))
-    rep.floor(r3, "FFI call sites", ncalls, 40)
+    rep.floor(r3, "FFI call sites", ncalls, 24)      # 40 on the pinned tree (see the note at the unsafe-block floor)
 
     # ---------------- R20.4
     nst = 0
